@@ -2,8 +2,8 @@ SPECIFICATION Spec
 CONSTANTS
   Crcs <- Crcs2
   CrcSeq <- CrcSeq2
-  LogTables <- LogThor
-  ParamTables <- ParThor
+  LogTables <- LogQuick
+  ParamTables <- ParQuick
   FLen = 2
   Alias <- AliasBeef
   Bug = "none"
@@ -11,7 +11,7 @@ CONSTANTS
   MaxCrash = 1
   MaxOther = 1
   OtherTables <- OtherTabs
-  MaxEnv = 1
+  MaxEnv = 0
 INVARIANT SetupsOK
 INVARIANT ConnectionOK
 INVARIANT RoNeverWritten
